@@ -11,7 +11,7 @@
 //!  * an "inexact stepping" family for resampling: two-knot series [0, b], b = k/10 (k = 1..=19), and [a, a + b] for
 //!    a in {0.1, 1/3}, counts 2..=24;
 //!  * NaN ordinates (remove_nan): series of length 1..=4 over the abscissae above (length <= 3 exhaustively) with
-//!    ordinates over {NaN, 0, 1}.
+//!    ordinates over {NaN, +inf, -inf, 0, 1} (an infinite ordinate is not a NaN: the point is kept).
 //! Oracles are brute force: the piecewise-linear graph is evaluated segment by segment; at a repeated abscissa the graph
 //! is the SET of ordinates stored there.  Outside the stated preconditions of props/C17.json (empty series, n < 2,
 //! NaN probe, slice entirely left of the domain) nothing is evaluated.
@@ -344,7 +344,7 @@ fn check_resampled(r: &mut Report, s: &Series1, xs: &[f64], ys: &[f64], desc: &s
 }
 
 fn check_nan_removal(r: &mut Report) {
-    let yn = [f64::NAN, 0.0, 1.0];
+    let yn = [f64::NAN, f64::INFINITY, f64::NEG_INFINITY, 0.0, 1.0];
     for len in 1..=4usize {
         let xs_set: &[f64] = if len <= 3 { &XS } else { &XS[..4] };
         ascending_tuples(xs_set, len, &mut |xs| {
@@ -358,6 +358,8 @@ fn check_nan_removal(r: &mut Report) {
                 r.check(t.y.iter().all(|v| !v.is_nan()), "remove_nan: no NaN ordinate is left", d);
                 r.check(t.y.len() == keep.len() && t.x.values().len() == keep.len() && keep.iter().enumerate().all(|(q, &k)| t.x.values()[q] == xs[k] && t.y[q] == ys[k]),
                     "remove_nan: exactly the points with a non-NaN ordinate are kept, in order", d);
+                r.check(keep.iter().all(|&k| (0..t.y.len().min(t.x.values().len())).any(|q| t.x.values()[q] == xs[k] && t.y[q] == ys[k])),
+                    "remove_nan: every parent point with a non-NaN ordinate (infinite ones included) is kept", d);
                 r.check(guarded(|| s.has_nan()) == Some(keep.len() != len), "has_nan: true exactly when an ordinate is NaN", d);
                 for (x0, x1) in [(0.0, 0.5), (0.75, 2.0), (1.0, 1.0), (-1.0, 4.0)] {
                     let want = (0..len).any(|k| ys[k].is_nan() && xs[k] >= x0 && xs[k] <= x1);
@@ -386,7 +388,7 @@ fn check_inexact_stepping(r: &mut Report) {
 }
 
 pub fn run() -> Option<Report> {
-    let mut r = Report::new("constructors on every vector of length <= 4 over {-inf,-1,0,0.5,1,+inf,NaN}, push chains <= 3, linear/linear_space over bounds {-1,0,0.5,1,2,3}^2 x n in {2,3,4,5,9}; every series with 1..=4 non-decreasing abscissae over {0,0.5,1,2,3} and ordinates over {-1,0,1,2}: interpolate / between / in_interval / split_at_x / area_under / resampled_n / resampled_x / y_crossings / scaled_by / shift_by / one chain, probes and bounds over 11 values in [-1,4] plus 1+2^-50 and 2-2^-40 for slices/splits, 8 levels, counts {2,3,4,5,7,9}; two-knot series with inexact stepping x counts 2..=24; remove_nan with ordinates over {NaN,0,1}");
+    let mut r = Report::new("constructors on every vector of length <= 4 over {-inf,-1,0,0.5,1,+inf,NaN}, push chains <= 3, linear/linear_space over bounds {-1,0,0.5,1,2,3}^2 x n in {2,3,4,5,9}; every series with 1..=4 non-decreasing abscissae over {0,0.5,1,2,3} and ordinates over {-1,0,1,2}: interpolate / between / in_interval / split_at_x / area_under / resampled_n / resampled_x / y_crossings / scaled_by / shift_by / one chain, probes and bounds over 11 values in [-1,4] plus 1+2^-50 and 2-2^-40 for slices/splits, 8 levels, counts {2,3,4,5,7,9}; two-knot series with inexact stepping x counts 2..=24; remove_nan / has_nan / has_nan_between with ordinates over {NaN,+inf,-inf,0,1}");
     // the real code is called under catch_unwind: keep the default hook from printing one message per caught panic
     let hook = std::panic::take_hook();
     std::panic::set_hook(Box::new(|_| {}));
